@@ -140,6 +140,7 @@ func main() {
 
 	otherSync := map[string]bool{}
 	handledSync := false
+	chanRanges := map[*ast.RangeStmt]bool{}
 	for fi, f := range files {
 		fname := filepath.Base(names[fi])
 		usesUnsafe := false
@@ -149,11 +150,16 @@ func main() {
 			case *ast.GoStmt, *ast.ChanType:
 				handledSync = true // go statements become scheduled tasks, sends / receives cooperative
 			case *ast.SelectStmt:
-				otherSync["select statement "+fname+":"+fmt.Sprint(fset.Position(x.Pos()).Line)] = true
+				if selectHasSend(x) {
+					otherSync["select statement with a send case "+fname+":"+fmt.Sprint(fset.Position(x.Pos()).Line)] = true
+				} else {
+					handledSync = true // receive-only selects poll
+				}
 			case *ast.RangeStmt:
 				if tv, ok := info.Types[x.X]; ok {
 					if _, isChan := tv.Type.Underlying().(*types.Chan); isChan {
-						otherSync["range over channel "+fname+":"+fmt.Sprint(fset.Position(x.Pos()).Line)] = true
+						handledSync = true
+						chanRanges[x] = true
 					}
 				}
 			case *ast.SelectorExpr:
@@ -163,8 +169,8 @@ func main() {
 						case "sync":
 							switch x.Sel.Name {
 							case "Mutex", "RWMutex":
-							case "Once", "WaitGroup":
-								handledSync = true // rewritten to cooperative versions below
+							case "Once", "WaitGroup", "Cond", "NewCond", "Locker", "Map", "Pool":
+								handledSync = true // rewritten to cooperative versions below (Map / Pool never block)
 							default:
 								otherSync["sync."+x.Sel.Name+" "+fname+":"+fmt.Sprint(fset.Position(x.Pos()).Line)] = true
 							}
@@ -205,7 +211,7 @@ func main() {
 			usesUnsafe = true
 		}
 		// 3. goroutines, channel operations, sync.Once / sync.WaitGroup
-		rewriteConcurrency(f, info, &sum)
+		rewriteConcurrency(f, info, &sum, chanRanges)
 		var buf bytes.Buffer
 		if err := format.Node(&buf, fset, f); err != nil {
 			fatal("print %s: %v", fname, err)
@@ -240,7 +246,57 @@ func main() {
 
 // rewriteConcurrency turns go statements into scheduled tasks and channel
 // sends / receives (outside select) into cooperative polling operations.
-func rewriteConcurrency(f *ast.File, info *types.Info, sum *summary) {
+func selectHasSend(x *ast.SelectStmt) bool {
+	for _, c := range x.Body.List {
+		if cc, ok := c.(*ast.CommClause); ok {
+			if _, isSend := cc.Comm.(*ast.SendStmt); isSend {
+				return true
+			}
+		}
+	}
+	return false
+}
+
+func selectHasDefault(x *ast.SelectStmt) bool {
+	for _, c := range x.Body.List {
+		if cc, ok := c.(*ast.CommClause); ok && cc.Comm == nil {
+			return true
+		}
+	}
+	return false
+}
+
+// retargetBreaks replaces the unlabelled break statements that refer to the
+// enclosing select (not the ones inside nested for / switch / select) by a
+// break to label.
+func retargetBreaks(list []ast.Stmt, label string) {
+	var visit func(st ast.Stmt)
+	visit = func(st ast.Stmt) {
+		switch x := st.(type) {
+		case *ast.BranchStmt:
+			if x.Tok == token.BREAK && x.Label == nil {
+				x.Label = ast.NewIdent(label)
+			}
+		case *ast.BlockStmt:
+			for _, y := range x.List {
+				visit(y)
+			}
+		case *ast.IfStmt:
+			visit(x.Body)
+			if x.Else != nil {
+				visit(x.Else)
+			}
+		case *ast.LabeledStmt:
+			visit(x.Stmt)
+		}
+	}
+	for _, st := range list {
+		visit(st)
+	}
+}
+
+func rewriteConcurrency(f *ast.File, info *types.Info, sum *summary, chanRanges map[*ast.RangeStmt]bool) {
+	selN := 0
 	call := func(name string, args ...ast.Expr) *ast.CallExpr {
 		return &ast.CallExpr{Fun: ast.NewIdent(name), Args: args}
 	}
@@ -249,6 +305,15 @@ func rewriteConcurrency(f *ast.File, info *types.Info, sum *summary) {
 		if u, ok := e.(*ast.UnaryExpr); ok && u.Op == token.ARROW {
 			sum.ChanOps++
 			return call("verifRecv", u.X)
+		}
+		if c, ok := e.(*ast.CallExpr); ok {
+			if se, ok := c.Fun.(*ast.SelectorExpr); ok && se.Sel.Name == "NewCond" {
+				if id, ok := se.X.(*ast.Ident); ok {
+					if pn, ok := info.Uses[id].(*types.PkgName); ok && pn.Imported().Path() == "sync" {
+						c.Fun = ast.NewIdent("verifNewCond")
+					}
+				}
+			}
 		}
 		return e
 	}
@@ -266,6 +331,49 @@ func rewriteConcurrency(f *ast.File, info *types.Info, sum *summary) {
 					x.Rhs[0] = call("verifRecv2", u.X)
 				}
 			}
+		case *ast.SelectStmt:
+			if selectHasSend(x) || selectHasDefault(x) {
+				break // a select with default never blocks; one with a send case stays foreign
+			}
+			// receive-only select: poll, yield to the simulator when nothing is ready
+			selN++
+			label := fmt.Sprintf("verifSel%d", selN)
+			for _, c := range x.Body.List {
+				cc := c.(*ast.CommClause)
+				retargetBreaks(cc.Body, label)
+				cc.Body = append(cc.Body, &ast.BranchStmt{Tok: token.BREAK, Label: ast.NewIdent(label)})
+			}
+			x.Body.List = append(x.Body.List, &ast.CommClause{Body: []ast.Stmt{
+				&ast.ExprStmt{X: call("verifWait", &ast.BasicLit{Kind: token.STRING, Value: "\"select\""})},
+			}})
+			sum.ChanOps++
+			return &ast.LabeledStmt{Label: ast.NewIdent(label), Stmt: &ast.ForStmt{Body: &ast.BlockStmt{List: []ast.Stmt{x}}}}
+		case *ast.RangeStmt:
+			if !chanRanges[x] {
+				break
+			}
+			// for v := range ch  ->  for { v, ok := verifRecv2(ch); if !ok { break }; ... }
+			sum.ChanOps++
+			key := x.Key
+			if key == nil {
+				key = ast.NewIdent("_")
+			}
+			tok := x.Tok
+			if tok != token.ASSIGN {
+				tok = token.DEFINE
+			}
+			okID := ast.NewIdent("verifOk")
+			body := append([]ast.Stmt{
+				&ast.AssignStmt{Lhs: []ast.Expr{key, okID}, Tok: token.DEFINE, Rhs: []ast.Expr{call("verifRecv2", x.X)}},
+				&ast.IfStmt{Cond: &ast.UnaryExpr{Op: token.NOT, X: ast.NewIdent("verifOk")}, Body: &ast.BlockStmt{List: []ast.Stmt{&ast.BranchStmt{Tok: token.BREAK}}}},
+			}, x.Body.List...)
+			if tok == token.ASSIGN {
+				// the variable exists already: receive into a temporary first
+				tmp := ast.NewIdent("verifV")
+				body[0] = &ast.AssignStmt{Lhs: []ast.Expr{tmp, okID}, Tok: token.DEFINE, Rhs: []ast.Expr{call("verifRecv2", x.X)}}
+				body = append(body[:2], append([]ast.Stmt{&ast.AssignStmt{Lhs: []ast.Expr{key}, Tok: token.ASSIGN, Rhs: []ast.Expr{ast.NewIdent("verifV")}}}, body[2:]...)...)
+			}
+			return &ast.ForStmt{Body: &ast.BlockStmt{List: body}}
 		case *ast.GoStmt:
 			sum.GoStmts++
 			c := x.Call
@@ -537,6 +645,9 @@ func rewriteMutexTypes(f *ast.File, info *types.Info, sum *summary) {
 					case "WaitGroup":
 						sum.OnceTypes++
 						return &ast.Ident{Name: "VerifWaitGroup", NamePos: se.Pos()}
+					case "Cond":
+						sum.OnceTypes++
+						return &ast.Ident{Name: "VerifCond", NamePos: se.Pos()}
 					}
 				}
 			}
@@ -928,8 +1039,11 @@ package ggql
 import (
 	"sort"
 	"sync"
+	"runtime"
 	"unsafe"
 )
+
+var _ = runtime.Gosched
 
 // VerifHook is implemented by the simulator's scheduler glue.
 type VerifHook interface {
@@ -1102,6 +1216,89 @@ func (w *VerifWaitGroup) Wait() {
 		}
 	}
 	w.wg.Wait()
+}
+
+// VerifCond replaces sync.Cond: Wait releases L, polls cooperatively until a
+// Signal or Broadcast that came after it, and takes L again.
+type VerifCond struct {
+	L       sync.Locker
+	mu      sync.Mutex
+	gen     int
+	tokens  int
+	waiters int
+	real    *sync.Cond
+}
+
+func verifNewCond(l sync.Locker) *VerifCond { return &VerifCond{L: l, real: sync.NewCond(l)} }
+
+func (c *VerifCond) Wait() {
+	h := VerifSimHook
+	if h == nil {
+		if c.real == nil {
+			c.real = sync.NewCond(c.L)
+		}
+		c.real.Wait()
+		return
+	}
+	c.mu.Lock()
+	my := c.gen
+	c.waiters++
+	c.mu.Unlock()
+	c.L.Unlock()
+	for {
+		c.mu.Lock()
+		if c.gen != my {
+			c.waiters--
+			c.mu.Unlock()
+			break
+		}
+		if c.tokens > 0 {
+			c.tokens--
+			c.waiters--
+			c.mu.Unlock()
+			break
+		}
+		c.mu.Unlock()
+		h.Wait("sync.Cond")
+	}
+	c.L.Lock()
+}
+
+func (c *VerifCond) Signal() {
+	if VerifSimHook == nil {
+		if c.real != nil {
+			c.real.Signal()
+		}
+		return
+	}
+	c.mu.Lock()
+	if c.waiters > c.tokens {
+		c.tokens++
+	}
+	c.mu.Unlock()
+}
+
+func (c *VerifCond) Broadcast() {
+	if VerifSimHook == nil {
+		if c.real != nil {
+			c.real.Broadcast()
+		}
+		return
+	}
+	c.mu.Lock()
+	c.gen++
+	c.tokens = 0
+	c.mu.Unlock()
+}
+
+// verifWait yields to the simulator from a polling loop (or to the Go
+// scheduler outside simulated runs).
+func verifWait(what string) {
+	if h := VerifSimHook; h != nil {
+		h.Wait(what)
+		return
+	}
+	runtime.Gosched()
 }
 
 // verifGo is a go statement of the code under test.
